@@ -39,6 +39,16 @@ def parse_generator_expressions(
         else:
             return '1' if arg[:col_pos] == arg[col_pos + 1:] else '0'
 
+    def num_equal(arg: str) -> str:
+        # $<EQUAL:a,b> compares numbers, not their spelling
+        col_pos = arg.find(',')
+        if col_pos < 0:
+            return '0'
+        try:
+            return '1' if int(arg[:col_pos]) == int(arg[col_pos + 1:]) else '0'
+        except ValueError:
+            return equal(arg)
+
     def vers_comp(op: str, arg: str) -> str:
         col_pos = arg.find(',')
         if col_pos < 0:
@@ -120,7 +130,7 @@ def parse_generator_expressions(
 
         # String operations
         'STREQUAL': equal,
-        'EQUAL': equal,
+        'EQUAL': num_equal,
         'VERSION_LESS': lambda x: vers_comp('<', x),
         'VERSION_GREATER': lambda x: vers_comp('>', x),
         'VERSION_EQUAL': lambda x: vers_comp('=', x),
